@@ -133,8 +133,14 @@ def r172(ctx, api):
 
 
 def r173(ctx, api):
-    from . import c14
+    from . import c14, meta_rules, c01
+    c01.r11(ctx)
     c14.r144(ctx, api, ctx.repo['writer'])
+    meta_rules.rowcount_rule(ctx, 'R17.4', only_modules={'api', 'writer', 'util'})
+    w = api.func('ParquetFile.write_row_groups')
+    last = [s for s in w.body if not isinstance(s, ast.Pass)]
+    ctx.ob('R17.4', 'api.write_row_groups:handle-rebuilt-after-the-append', bool(last) and norm(last[-1]) == 'self._set_attrs()',
+           'metadata-only answers of a live handle (cats, columns, dtypes) must be rebuilt after an append', api.loc(w))
     c06.r63(ctx, api)
     c06.r64(ctx, api)
     tp = api.func('ParquetFile.to_pandas')
